@@ -149,16 +149,15 @@ fn mk(features: u64) -> Con {
     unsafe { assert!(DEV.n_used == 2 && DEV.n_drv == 2); }
     c
 }
-/// the device puts (token, len) into the next used-ring slot of queue `q` (SIZE = 2) and advances used.idx
-fn dev_used_push(q: usize, token: u16, len: u32) {
+/// the device puts (token, len) into used-ring slot `k % 2` of queue `q` (SIZE = 2) and sets used.idx = k + 1, where
+/// `k` = number of completions on that queue so far (given by the harness, so that all offsets are concrete)
+fn dev_used_push(q: usize, k: u16, token: u16, len: u32) {
     unsafe {
         let p = DEV.used[q];
-        let idxp = p.add(2) as *mut u16;
-        let idx = *idxp;
-        let slot = (idx & 1) as usize;
+        let slot = (k & 1) as usize;
         *(p.add(4 + 8 * slot) as *mut u32) = token as u32;
         *(p.add(8 + 8 * slot) as *mut u32) = len;
-        *idxp = idx.wrapping_add(1);
+        *(p.add(2) as *mut u16) = k.wrapping_add(1);
     }
 }
 /// descriptor `i` of queue `q` as the device sees it: (addr, len, flags)
@@ -244,7 +243,7 @@ fn c15_rx_recv() {
     let (b0, b1): (u8, u8) = (kani::any(), kani::any());
     c.queue_buf_rx[0] = b0;
     c.queue_buf_rx[1] = b1;
-    dev_used_push(RXQ, t0, n1);
+    dev_used_push(RXQ, 0, t0, n1);
     // a peek does not consume
     assert!(c.recv(false) == Ok(Some(b0)), "C15: peek");
     assert!(c.receive_token.is_none(), "C15: buffer re-posted before the chunk was consumed");
@@ -272,12 +271,12 @@ fn c15_rx_second_chunk() {
     let t0 = c.receive_token.unwrap();
     let b0: u8 = kani::any();
     c.queue_buf_rx[0] = b0;
-    dev_used_push(RXQ, t0, 1);
+    dev_used_push(RXQ, 0, t0, 1);
     assert!(c.recv(true) == Ok(Some(b0)), "C15: first chunk");
     let t1 = c.receive_token.expect("C15: buffer not re-posted after the chunk was consumed");
     let d0: u8 = kani::any();
     c.queue_buf_rx[0] = d0;
-    dev_used_push(RXQ, t1, 1);
+    dev_used_push(RXQ, 1, t1, 1);
     assert!(c.recv(true) == Ok(Some(d0)), "C15: second chunk");
     check_inv(&c);
     unsafe { assert!(DEV.rx_shares == 3 && DEV.tx_shares == 0); }
@@ -295,7 +294,7 @@ fn c15_rx_read_bufread() {
     c.queue_buf_rx[0] = b0;
     c.queue_buf_rx[1] = b1;
     c.queue_buf_rx[2] = b2;
-    dev_used_push(RXQ, t0, 3);
+    dev_used_push(RXQ, 0, t0, 3);
     // interrupt acknowledgement: takes the chunk in iff the queue-interrupt bit is set
     let isr: u32 = kani::any();
     c.transport.isr = isr;
@@ -330,7 +329,7 @@ fn c15_rx_read_reposts() {
     let t0 = c.receive_token.unwrap();
     let b0: u8 = kani::any();
     c.queue_buf_rx[0] = b0;
-    dev_used_push(RXQ, t0, 1);
+    dev_used_push(RXQ, 0, t0, 1);
     let mut buf = [0u8; 2];
     assert!(c.read(&mut buf) == Ok(1) && buf[0] == b0, "C15: first chunk through read");
     assert!(c.receive_token.is_none() && c.cursor == c.pending_len);
@@ -341,7 +340,7 @@ fn c15_rx_read_reposts() {
     // next blocking read: posts (token 0 again: the descriptor was recycled); the device answers at once
     let d0: u8 = kani::any();
     c.queue_buf_rx[0] = d0;
-    dev_used_push(RXQ, 0, 1);
+    dev_used_push(RXQ, 1, 0, 1);
     assert!(c.read(&mut buf) == Ok(1) && buf[0] == d0, "C15: second chunk through read");
     unsafe { assert!(DEV.rx_shares == 2, "C15: exactly one re-post"); }
     check_inv(&c);
@@ -355,7 +354,7 @@ fn c15_tx() {
     let mut c = mk(0);
     let ch: u8 = kani::any();
     // the device completes the first transmit chain (token 0) as soon as it is there
-    dev_used_push(TXQ, 0, 0);
+    dev_used_push(TXQ, 0, 0, 0);
     assert!(c.send(ch) == Ok(()));
     unsafe {
         assert!(DEV.tx_shares == 1 && DEV.tx_len == 1 && DEV.tx_bytes[0] == ch, "C15: send does not place exactly the caller's byte");
@@ -366,7 +365,7 @@ fn c15_tx() {
         assert!(l == 1 && f == 0 && DEV.seen_avail == 1, "C15: transmit descriptor is not [1 byte, device-readable, end of chain]");
     }
     let data: [u8; 3] = [kani::any(), kani::any(), kani::any()];
-    dev_used_push(TXQ, 0, 0);
+    dev_used_push(TXQ, 1, 0, 0);
     let by_write: bool = kani::any();
     if by_write { assert!(EioWrite::write(&mut c, &data) == Ok(3)); } else { assert!(c.send_bytes(&data) == Ok(())); }
     unsafe {
@@ -389,32 +388,36 @@ fn c15_tx() {
 
 /// C15/C07: a device that reports MORE than the 4096 bytes of the buffer: `finish_receive` accepts the length, no
 /// out-of-range slice is ever formed: `fill_buf` ends in Rust's range-check panic (clean).  `should_panic`: passes iff
-/// a panic is reachable and every *other* check (pointer validity, bounds of raw accesses) holds.
+/// a panic is reachable and every *other* check (pointer validity, bounds of raw accesses) holds.  (The length is
+/// concrete: with a symbolic one CBMC cannot decide the wait loop's condition and unwinds it 20 times.)
+fn overlong_fill_buf(n: u32) {
+    let mut c = mk(0);
+    let t0 = c.receive_token.unwrap();
+    dev_used_push(RXQ, 0, t0, n);
+    assert!(c.read_ready() == Ok(true));
+    assert!(c.pending_len == n as usize && c.cursor == 0 && c.receive_token.is_none());
+    let _ = c.fill_buf();
+}
+/// bounded stand-in: reported length 4097
 #[kani::proof]
 #[kani::unwind(20)]
 #[kani::should_panic]
-fn c15_overlong_fill_buf_panics() {
-    let mut c = mk(0);
-    let t0 = c.receive_token.unwrap();
-    let n: u32 = kani::any();
-    kani::assume(n > 4096);
-    dev_used_push(RXQ, t0, n);
-    assert!(c.read_ready() == Ok(true));
-    assert!(c.pending_len == n as usize && c.cursor == 0);
-    let _ = c.fill_buf();
-}
+fn c15_overlong_fill_buf_panics() { overlong_fill_buf(4097); }
+/// bounded stand-in: reported length 2^32 - 1
+#[kani::proof]
+#[kani::unwind(20)]
+#[kani::should_panic]
+fn c15_overlong_max_fill_buf_panics() { overlong_fill_buf(u32::MAX); }
 
-/// C15/C07: same device; single-byte reads hand out buffer bytes until the cursor reaches the end of the buffer,
-/// then `recv` ends in Rust's index-check panic (clean), never an out-of-range read.
+/// C15/C07: same device (reported length 4098); single-byte reads hand out buffer bytes until the cursor reaches the
+/// end of the buffer, then `recv` ends in Rust's index-check panic (clean), never an out-of-range read.
 #[kani::proof]
 #[kani::unwind(20)]
 #[kani::should_panic]
 fn c15_overlong_recv_panics() {
     let mut c = mk(0);
     let t0 = c.receive_token.unwrap();
-    let n: u32 = kani::any();
-    kani::assume(n > 4096);
-    dev_used_push(RXQ, t0, n);
+    dev_used_push(RXQ, 0, t0, 4098);
     let b: u8 = kani::any();
     c.queue_buf_rx[4095] = b;
     assert!(c.recv(false).is_ok());
@@ -477,15 +480,16 @@ fn c15_defect_consume_overflow() {
 }
 
 /// SUSPECTED DEFECT (expected to FAIL on the unchanged tree): `fmt::Write::write_str("")` passes an empty buffer to
-/// `send_bytes` ("Sends one or more bytes"), which puts a ZERO-LENGTH descriptor on the transmit queue, violating the
-/// queue's documented requirement "The buffers must not be empty" (QEMU treats a zero-sized buffer as a fatal
-/// device error).  embedded-io `write` guards against this, `write_str` does not.
+/// `send_bytes` ("Sends one or more bytes"), which hands it to `VirtQueue::add` ("The buffers must not be empty"):
+/// `add_direct` stops with `assert_ne!(buffer.len(), 0)` (queue.rs:229), i.e. formatting an empty string to the console
+/// (`write!(console, "{}", "")`) panics the driver.  embedded-io `write` guards against this, `write_str` does not.
+/// The harness states: writing the empty string returns normally and places nothing on the transmit queue.
 #[kani::proof]
 #[kani::unwind(20)]
 fn c15_defect_write_str_empty() {
     let mut c = mk(0);
-    dev_used_push(TXQ, 0, 0);
-    let _ = core::fmt::Write::write_str(&mut c, "");
-    unsafe { assert!(DEV.tx_shares == 0 || DEV.tx_len > 0, "C15: a zero-length buffer was placed on the transmit queue"); }
+    dev_used_push(TXQ, 0, 0, 0);
+    let r = core::fmt::Write::write_str(&mut c, "");
+    assert!(r.is_ok(), "C15: writing the empty string failed");
+    unsafe { assert!(DEV.tx_shares == 0, "C15: a zero-length buffer was placed on the transmit queue"); }
 }
-
